@@ -25,7 +25,7 @@ import numpy as np
 from vf import foamdict, geom, util
 
 ID = "C08"
-BUDGET = {"quick": 48000, "thorough": 3000000}
+BUDGET = {"quick": 48000, "thorough": 2000000}
 MIN_KEYS = 200
 KINDS = ("angle", "origin", "arc")
 REQUIRED = (
@@ -38,6 +38,7 @@ REQUIRED = (
        "judged:three-point-consistency:origin-flat", "origin-flat:centre-adjusted",
        "judged:chord:angle", "judged:chord:origin", "judged:chord:arc", "judged:chord:origin-flat",
        "judged:chord:spline", "judged:chord:polyLine", "judged:chord:line", "judged:chord:project",
+       "judged:chord:arc-collinear", "arc-collinear:dropped",
        "judged:chord:curve:circle", "judged:chord:curve:line", "judged:chord:curve:linear", "judged:chord:curve:spline",
        "judged:chord:curve:helix", "judged:chord:curve:discrete", "class:curve:reversed-parameters"]
 )
@@ -47,7 +48,7 @@ RULE = (
     "end points by Rodrigues rotation. Angle(theta, n); Origin(centre) [intended = the arc shorter than pi]; Arc(point at "
     "0.1..0.9 of the sector, so exterior arcs for |theta| > pi]; 15% of those through Loft + Mesh.write (edge on side 0/1/2 "
     "of the bottom face). Chord bound additionally on Origin with flatness 0.5..3 and/or off-centre origin, Spline / "
-    "PolyLine (2..7 points: on arc, wiggling, overshooting), Line, Project, OnCurve(CircleCurve | LineCurve | Linear- | "
+    "PolyLine (2..7 points: on arc, wiggling, overshooting, on the chord), Line, Project, Arc(point on the chord), OnCurve(CircleCurve | LineCurve | Linear- | "
     "SplineInterpolatedCurve | AnalyticCurve helix | DiscreteCurve) with both parameter orders. fixed part: 3 kinds x "
     "2 signs x 8 octants x (6 axis-aligned + 2 generic normals). non-trivial: every curved edge; distinct by (kind, sign "
     "theta, octant of |theta|, orientation class of n [axis-aligned +-xyz | dominant component +-xyz]) resp. (kind, style)"
@@ -58,10 +59,12 @@ ASSUMPTIONS = [
     "Origin(centre), flatness 1, centre equidistant to 1e-13 R: intended arc = the one shorter than pi (OpenFOAM.com arcEdge)",
     "|theta - pi| >= 1e-4 (at pi the origin specification is ambiguous and the construction is singular); "
     "0.02 <= |theta| <= 2pi - 0.02; 0.1 <= R <= 100; Arc point between 10% and 90% of the sector",
-    "third point: abs 1e-7*R (library TOL = 1e-7 at unit scale; measured noise < 1e-11 R); length: rel 1e-7 (measured noise "
-    "< 1e-10); written point vs third_point: 1e-8 per component (8 printed decimals); three-point consistency: rel 1e-6",
-    "an arc whose mid point is more than 1e-6 (10 TOL) off the chord is a real arc: dropping it (is_valid False, no "
-    "'arc' entry) violates 'is written as the three-point arc'; the smallest sagitta in the domain is 5e-6",
+    "third point: abs 1e-7*R (library TOL = 1e-7 at unit scale; measured noise < 2e-10 R, next to pi); length: rel 1e-7 (measured noise "
+    "< 2e-12); written point vs third_point: 1e-8 per component (8 printed decimals); three-point consistency: rel 1e-6",
+    "an arc whose third point is more than 1e-6 (10 TOL) off the chord is a real arc: dropping it (is_valid False, no "
+    "'arc' entry) violates 'is written as the three-point arc'; the smallest such height in the domain is 1.8e-6 "
+    "(Arc point at 10% of a 0.02 rad sector of R = 0.1), the smallest sagitta 5e-6",
+    "Arc(point exactly on the chord) is the library's 'collinear, silently dropped' case: only the chord bound is judged",
     "chord bound: length >= chord*(1 - 1e-9); for OnCurve edges >= chord*(1 - 1e-3) because vertex parameters come from "
     "the library's numerical closest-point search (its accuracy is C16's subject), vertices lie on the curve >= 0.1 of "
     "its extent apart and away from the seam of the closed circle",
@@ -148,10 +151,12 @@ def gen_case(ctx):
         kind = "spline"
     elif v < 0.955:
         kind = "polyLine"
-    elif v < 0.972:
+    elif v < 0.968:
         kind = "line"
-    elif v < 0.988:
+    elif v < 0.979:
         kind = "project"
+    elif v < 0.988:
+        kind = "arc-collinear"
     else:
         kind = "curve"
 
@@ -192,7 +197,7 @@ def gen_case(ctx):
             case = _base(kind, R, c, n, u, theta)
             break
         m = rng.randint(2, 7)  # the library's point arrays need >= 2 points
-        style = rng.choice(["on-arc", "wiggle", "overshoot"])
+        style = rng.choice(["on-arc", "wiggle", "overshoot", "straight"])
         p1, p2 = geom.arr(case["p1"]), geom.arr(case["p2"])
         chord = float(np.linalg.norm(p2 - p1))
         pts = []
@@ -200,12 +205,21 @@ def gen_case(ctx):
             s = (i + 1) / (m + 1)
             if style == "on-arc":
                 pts.append(geom.rotate(p1, n, theta * s, c))
+            elif style == "straight":  # on the chord itself: the bound is attained
+                pts.append(p1 + (p2 - p1) * s)
             elif style == "wiggle":
                 pts.append(p1 + (p2 - p1) * s + geom.arr(geom.rand_vec(rng)) * chord * 0.3)
             else:
                 pts.append(p1 + (p2 - p1) * rng.uniform(-0.5, 1.5) + geom.arr(geom.rand_vec(rng)) * chord * 0.1)
         case["style"] = style
         case["points"] = [_vec(p) for p in pts]
+        return case
+
+    if kind == "arc-collinear":
+        case = _base(kind, R, c, n, u, rng.uniform(0.05, TWO_PI - 0.05) * rng.choice([-1, 1]))
+        p1, p2 = geom.arr(case["p1"]), geom.arr(case["p2"])
+        case["s"] = rng.choice([0.5, rng.uniform(0.1, 0.9)])
+        case["point"] = _vec(p1 + (p2 - p1) * case["s"])
         return case
 
     if kind in ("line", "project"):
@@ -295,7 +309,7 @@ def _make_data(case):
         return E.Angle(case["theta"], list(case["n"]))
     if kind == "origin":
         return E.Origin(list(case["c"]))
-    if kind == "arc":
+    if kind in ("arc", "arc-collinear"):
         return E.Arc(list(case["point"]))
     if kind == "origin-flat":
         return E.Origin(list(case["origin"]), case["flatness"])
@@ -427,7 +441,8 @@ def _run_arc(ctx, case):
             )
 
     # ---- (w) written as a three-point arc
-    sagitta = R * (1 - math.cos(abs(ang) / 2))
+    want_tp = geom.arr(case["point"]) if kind == "arc" else mid
+    sagitta = float(np.linalg.norm(np.cross(want_tp - p1, p2 - p1))) / geom.dist(p1, p2)  # height over the chord
     real_arc = sagitta > 1e-6
     dropped = False
     if not valid:
@@ -437,7 +452,7 @@ def _run_arc(ctx, case):
             dropped = True
             ctx.violation(
                 f"arc-dropped-as-collinear:{kind}",
-                f"{where}: is_valid = False although the arc's mid point is {sagitta:.3g} off the chord (chord "
+                f"{where}: is_valid = False although the arc's third point is {sagitta:.3g} off the chord (chord "
                 f"{geom.dist(p1, p2):.6g}); no 'arc' entry is written and length {length!r} is the chord instead of "
                 f"R*angle = {want_len!r}",
             )
@@ -554,6 +569,10 @@ def _run_simple(ctx, case):
     if kind in ("spline", "polyLine"):
         ctx.key([kind, case["style"], len(case["points"]), orientation_class(case["n"])])
         mech = f"{kind}:{case['style']}"
+    elif kind == "arc-collinear":
+        ctx.key([kind, "valid" if edge.is_valid else "dropped"], nontrivial=False)
+        ctx.count("arc-collinear:" + ("kept" if edge.is_valid else "dropped"))
+        mech = kind
     else:
         ctx.key([kind], nontrivial=False)
         mech = kind
